@@ -49,8 +49,11 @@ def scripts(draw, tier):
          "tol": draw(st.one_of(st.sampled_from([0.0, 1e300, float("inf"), 0.1, 0.5]), st.floats(1e-6, 3, allow_nan=False, width=64))),
          "np_float": draw(st.booleans()), "crit_spelling": draw(st.sampled_from(["plain", "upper", "spaces"])),
          "deprecated_class": draw(st.booleans())}
-    if crit == "variance":
+    c["evaluator"] = "observable" if crit == "variance" else draw(st.sampled_from(["metric", "metric", "observable"]))
+    if c["evaluator"] == "observable":
         c["ds"] = draw(st.lists(st.sampled_from([0.0, 0.1, 0.5, 1.0, 2.0]), min_size=L, max_size=L))
+    c["criterion_arg"] = "default" if (crit == "relative" and draw(st.booleans())) else "explicit"    # 'relative' is the documented default
+    c["rounds"] = draw(st.sampled_from([1, 1, 2]))      # a second fit() re-using the same evaluator and stopper (epoch numbers restart)
     return c
 
 
@@ -62,14 +65,29 @@ def dev(c, a, b, var_a):
     return None if var_a == 0 else abs(a - b) / math.sqrt(var_a)
 
 
-def reference(c, E):
-    """-> (stop_epoch or None, cut_epoch or None): decision procedure on the scripted sequence."""
-    L = []
+def recorded_value(c, i):
+    """(value, variance) the evaluator records for scripted evaluation i.  For the scripted observable the library reduces the two
+    values [mu-d, mu+d] with torch.var_mean; the same reduction is used here so that both sides see bit-identical floats
+    (e.g. mu = 1e-296, d = 1 gives a mean of exactly 0)."""
+    mu = c["vals"][i]
+    if not c.get("ds"):
+        return (mu, None)
+    d = c["ds"][i]
+    var, mean = torch.var_mean(torch.tensor([mu - d, mu + d], dtype=torch.double))
+    return (mean.item(), var.item())
+
+
+def reference(c, E, L=None):
+    """-> (stop_epoch or None, cut_epoch or None): decision procedure on the scripted sequence.
+    L = evaluations recorded in earlier rounds (the history is kept in call order across fit() calls)."""
+    L = [] if L is None else L
     p, tol = c["patience"], c["tol"]
     for e in range(1, E + 1):
         if e % c["pe"] == 0:
             i = len(L)
-            L.append((c["vals"][i], 2 * c["ds"][i] ** 2 if c["criterion"] == "variance" else None))
+            if i >= len(c["vals"]):
+                return None, e          # script exhausted: cut here
+            L.append(recorded_value(c, i))
         if e % c["ps"] == 0 and len(L) >= p + 1:
             a, va = L[-1 - p]
             b, _ = L[-1]
@@ -82,25 +100,49 @@ def reference(c, E):
     return None, None
 
 
+def plan_rounds(c):
+    """-> list of (E, stop_epoch) per fit() round, truncated before the first undefined / borderline comparison."""
+    nr = c.get("rounds", 1)
+    Ltot = len(c["vals"])
+    lens = [Ltot] if nr == 1 else [max(1, Ltot // 2), Ltot - max(1, Ltot // 2)]
+    plan, hist, truncated = [], [], False
+    for Lr in lens:
+        if Lr < 1:
+            break
+        E = Lr * c["pe"] + (c["pe"] - 1)
+        h = list(hist)
+        stop_e, cut = reference(c, E, h)
+        if cut is not None:
+            truncated = True
+            E = cut - 1
+            if E < 1:
+                break
+            h = list(hist)
+            stop_e, cut2 = reference(c, E, h)
+            assert cut2 is None
+        plan.append((E, stop_e))
+        hist = h
+        if truncated:
+            break
+    return plan, truncated
+
+
 def check(c):
     from qucumber.callbacks import EarlyStopping, LambdaCallback, MetricEvaluator, ObservableEvaluator, VarianceBasedEarlyStopping
     from qucumber.nn_states import PositiveWaveFunction
     from qucumber.observables import ObservableBase
-    E = len(c["vals"]) * c["pe"] + (c["pe"] - 1)
-    stop_e, cut = reference(c, E)
-    labels = ["criterion=" + c["criterion"], "family=" + c["family"], f"p={c['patience']}"] + (["periods_differ"] if c["pe"] != c["ps"] else [])
-    if cut is not None:
-        E = cut - 1
+    plan, truncated = plan_rounds(c)
+    labels = ["criterion=" + c["criterion"], "family=" + c["family"], f"p={c['patience']}", "evaluator=" + c.get("evaluator", "metric")] + (["periods_differ"] if c["pe"] != c["ps"] else [])
+    if truncated:
         labels.append("truncated")
-        if E < 1:
-            return {"excluded": 1, "nontrivial": False, "labels": labels}
-        stop_e, cut2 = reference(c, E)
-        assert cut2 is None
+    if not plan:
+        return {"excluded": 1, "nontrivial": False, "labels": labels}
+    E, stop_e = plan[0]
     state = PositiveWaveFunction(1, 1, gpu=False)
     data = torch.tensor([[0.0], [1.0]], dtype=torch.double)
     counter = [0]
     conv = (lambda v: np.float64(v)) if c["np_float"] else float
-    if c["criterion"] == "variance":
+    if c.get("evaluator", "observable" if c["criterion"] == "variance" else "metric") == "observable":
         class Scripted(ObservableBase):
             def __init__(self):
                 self.name = "m"
@@ -108,7 +150,7 @@ def check(c):
             def apply(self, nn_state, samples):
                 i = counter[0]
                 counter[0] += 1
-                mu, d = c["vals"][i], c["ds"][i]
+                mu, d = c["vals"][i], (c["ds"][i] if c.get("ds") else 0.5)
                 return torch.tensor([mu - d, mu + d], dtype=torch.double)
         ev = ObservableEvaluator(c["pe"], [Scripted()], num_samples=2, num_chains=2, burn_in=0, steps=0)
     else:
@@ -124,22 +166,39 @@ def check(c):
             es = VarianceBasedEarlyStopping(c["ps"], c["tol"], c["patience"], ev, "m")
         require(any(issubclass(x.category, DeprecationWarning) for x in w), "deprecated-class:no-warning", "VarianceBasedEarlyStopping did not emit a DeprecationWarning")
         labels.append("deprecated_class")
+    elif c.get("criterion_arg") == "default" and c["criterion"] == "relative":
+        es = EarlyStopping(c["ps"], c["tol"], c["patience"], ev, "m")          # criterion left at its documented default ('relative')
+        labels.append("criterion_default")
     else:
         es = EarlyStopping(c["ps"], c["tol"], c["patience"], ev, "m", criterion=spell)
     ends = []
     rec = LambdaCallback(on_epoch_end=lambda s, e: ends.append(e))
-    state.fit(data, epochs=E, pos_batch_size=2, lr=0.01, callbacks=[ev, es, rec])
+    nt_any = False
+    for ri, (E, stop_e) in enumerate(plan):
+        del ends[:]
+        state.stop_training = False
+        before_last = es.last_epoch
+        state.fit(data, epochs=E, pos_batch_size=2, lr=0.01, callbacks=[ev, es, rec])
+        r = judge_round(c, ri, E, stop_e, ends, es, state, ev, before_last)
+        nt_any = nt_any or r
+    if len(plan) > 1:
+        labels.append("two_rounds")
+    return {"nontrivial": nt_any, "labels": labels + (["fires"] if any(se for _, se in plan) else ["never"])}
+
+
+def judge_round(c, ri, E, stop_e, ends, es, state, ev, before_last):
+    rtag = f" (fit round {ri + 1})" if ri else ""
     last = ends[-1] if ends else None
     if stop_e is None:
-        require(last == E and es.last_epoch is None and state.stop_training is False, "stopped-without-rule",
-                f"training stopped at epoch {last} (last_epoch={es.last_epoch}) although the convergence rule is never met in {E} epochs",
+        require(last == E and es.last_epoch == before_last and state.stop_training is False, "stopped-without-rule",
+                f"training stopped at epoch {last} (last_epoch={es.last_epoch}) although the convergence rule is never met in {E} epochs" + rtag,
                 vals=c["vals"][:len(ev)], patience=c["patience"], tol=c["tol"])
     else:
         require(last is not None and last >= stop_e, "stopped-too-early" if (last or 0) < stop_e else "x",
                 f"training stopped at epoch {last}, before the first epoch ({stop_e}) at which the rule is met "
-                f"(patience {c['patience']}, {len(ev)} evaluations so far)", vals=c["vals"][:len(ev) + 1], tol=c["tol"])
+                f"(patience {c['patience']}, {len(ev)} evaluations so far)" + rtag, vals=c["vals"][:len(ev) + 1], tol=c["tol"])
         require(last == stop_e and es.last_epoch == stop_e and state.stop_training is True, "did-not-stop-when-rule-met",
-                f"rule met at epoch {stop_e} but training ran until {last} (last_epoch={es.last_epoch}, stop_training={state.stop_training})")
+                f"rule met at epoch {stop_e} but training ran until {last} (last_epoch={es.last_epoch}, stop_training={state.stop_training})" + rtag)
     first_adm = None
     cnt = 0
     for e in range(1, E + 1):
@@ -148,7 +207,7 @@ def check(c):
             first_adm = e
             break
     nt = (stop_e is None and first_adm is not None) or (stop_e is not None and first_adm is not None and stop_e > first_adm)
-    return {"nontrivial": nt, "labels": labels + (["fires"] if stop_e else ["never"])}
+    return nt
 
 
 def check_construction(c):
